@@ -217,7 +217,13 @@ static void bulk(Tape &t, Ctx &c, int ver, const Suite &su, bool c2s) {
     VF_CHECK(pfx, "delivered-data-beyond-authentic-prefix", "delivered %zu bytes that are not a prefix of the %zu submitted (first difference at offset %zu); %s", rcv.delivered.size(), all.size(), d, desc.c_str());
     if (!flip) { VF_CHECK(rcv.delivered.size() == all.size(), "authentic-prefix-not-delivered", "delivered %zu of %zu submitted bytes; %s", rcv.delivered.size(), all.size(), desc.c_str());
         VF_CHECK(!dead, "unedited-stream-killed-session", "unedited bulk stream ended the session rc=%d; %s", rcv.last_rc, desc.c_str()); }
-    else VF_CHECK(dead && rcv.delivered.size() < all.size(), "modified-record-did-not-end-session", "a flipped bit did not end the session (delivered %zu of %zu); %s", rcv.delivered.size(), all.size(), desc.c_str());
+    else {
+        // a flip that enlarges a length field leaves the receiver waiting for the rest of a record that never comes: not dead, but
+        // then it asks for more input and has delivered strictly less than was sent
+        bool waiting = !dead && rcv.last_rc == MATRIXSSL_REQUEST_RECV && rcv.delivered.size() < all.size();
+        if (waiting) c.count("bulk:flip-left-receiver-waiting-for-more-input");
+        VF_CHECK((dead && rcv.delivered.size() < all.size()) || waiting, "modified-record-did-not-end-session", "a flipped bit did not end the session (delivered %zu of %zu, last rc %d); %s", rcv.delivered.size(), all.size(), rcv.last_rc, desc.c_str());
+    }
     c.nontrivial(fmt("bulk|%d|%04x|%d|%d|%d", ver, su.id, c2s, mfl, flip));
 }
 
